@@ -1105,6 +1105,17 @@ func firstOracle(c *FirstCase) error {
 	}
 	defer db.Close()
 	db.SetMaxOpenConns(c.Goroutines)
+	// every goroutine gets a connection of its own before the start: nothing
+	// (not even the pool's lock) orders the first queries after one another
+	conns := make([]*sql.Conn, c.Goroutines)
+	for g := range conns {
+		cn, err := db.Conn(context.Background())
+		if err != nil {
+			return fmt.Errorf("connection %d: %v", g, err)
+		}
+		defer cn.Close()
+		conns[g] = cn
+	}
 	var arrived atomic.Int32
 	errs := make([]error, c.Goroutines)
 	var wg sync.WaitGroup
@@ -1123,7 +1134,7 @@ func firstOracle(c *FirstCase) error {
 				}
 			}
 			errs[g] = fix.Safe(func() error {
-				r, err := db.Query(text)
+				r, err := conns[g].QueryContext(context.Background(), text)
 				if err != nil {
 					return fmt.Errorf("query %+q (among the first of the process): %v", text, err)
 				}
